@@ -64,9 +64,7 @@ def shard(seed, n_examples, shrink=True):
         stats.case(m.program() if nt else None, nt, lab)
 
     v = core.drive(test, seed, n_examples, shrink=shrink)
-    if v is not None:
-        stats.violations.append({"case": v.case, "msg": v.msg, "key": v.key})
-    return stats
+    return core.finish_shard(stats, v, replay)
 
 
 def replay(case):
